@@ -20,7 +20,7 @@ from boario.extended_models import ARIOPsiModel  # noqa: E402
 
 
 def base_table(kind="dense", m=2, n=3, k=1, seed=1, scale=1000.0):
-    return scen.gen_table(random.Random(seed), m=m, n=n, k=k, kind=kind, scale=scale)
+    return scen.gen_table(random.Random(seed), m=m, n=n, k=k, kind=kind, scale=scale, labels="plain")
 
 
 def base_cfg(**over):
